@@ -123,6 +123,13 @@ def nested(rng):
             "function main() -> void { boolean x = true; " + "x ? " * 7000 + "y;" + " : x;" * 7000 + " }",
             "function main() -> void { boolean x = true; " + "x ? x; : " * 7000 + "x; }",
             "function main() -> void { boolean b = " + "!" * 9000 + "true; }",
+            # casts recurse on their own path in the parser: tens of thousands of them at bracket depth 1, and a mix with other prefixes
+            "function main() -> void { int x = " + "(int)" * 30000 + "1; }",
+            "function main() -> void { int x = " + "(int)" * 3000 + "1; echo(x); }",
+            "function main() -> void { float x = " + "(float)-(int)~" * 4000 + "1; }",
+            # a file whose first token is an annotation
+            "@quantum function f() -> bit { qubit q; return measure q; }\nfunction main() -> void { echo(f()); }",
+            "@shots(3) function main() -> void { }", "@", "@quantum", "@shots(",
             "function main() -> void { int x = " + "-" * 700 + "1; }",
             "class Pair<A, B> { public constructor() -> Pair<A, B> { } }\nclass P<T> { public P<Pair<T, T>> f; public constructor() -> P<T> { } }\n"
             "function g(P<Object> p) -> void { echo(p" + ".f" * 40 + " == null); }\nfunction main() -> void { }",
